@@ -7,6 +7,8 @@ From MC Require Import Model.Base Model.Generated Model.Store Model.Memc Model.C
 Inductive event :=
 | EvChunk (c : nat) (b : bytes)     (* a read on connection c returned these bytes *)
 | EvEof (c : nat)                   (* a read on connection c returned 0 *)
+| EvReset (c : nat)                 (* a read on connection c failed (connection reset) *)
+| EvTimeout (c : nat)               (* connection c was idle for the receive timeout *)
 | EvTick (d : N)                    (* the clock advanced by d seconds *)
 | EvOracle (vs : list bytes).       (* victims the eviction loop will pick next *)
 
@@ -18,6 +20,11 @@ Record world := mkWorld {
 
 Definition init_world (item_limit : N) (mem_limit : option N) : world :=
   mkWorld item_limit [] (init_store mem_limit).
+
+(* a world whose store has already issued CAS values below [cas0] and whose
+   clock shows [now0] (a server that has been running) *)
+Definition init_world_at (item_limit : N) (mem_limit : option N) (cas0 now0 : N) : world :=
+  mkWorld item_limit [] (mkStore [] cas0 now0 mem_limit 0 []).
 
 (* connection i; one that has not been seen yet is a fresh connection *)
 Fixpoint get_conn (limit : N) (i : nat) (l : list conn) : conn :=
@@ -45,6 +52,14 @@ Definition step (w : world) (e : event) : world * list bytes :=
       match eof (get_conn (w_limit w) i (w_conns w)) (w_store w) with
       | (cn, s, out) => (mkWorld (w_limit w) (set_conn (w_limit w) i cn (w_conns w)) s, out)
       end
+  | EvReset i =>
+      let cn := get_conn (w_limit w) i (w_conns w) in
+      (mkWorld (w_limit w) (set_conn (w_limit w) i (if is_open cn then close cn WReset else cn) (w_conns w))
+               (w_store w), [])
+  | EvTimeout i =>
+      let cn := get_conn (w_limit w) i (w_conns w) in
+      (mkWorld (w_limit w) (set_conn (w_limit w) i (if is_open cn then close cn WTimeout else cn) (w_conns w))
+               (w_store w), [])
   | EvTick d => (mkWorld (w_limit w) (w_conns w) (with_now (w_store w) (s_now (w_store w) + d)), [])
   | EvOracle vs => (mkWorld (w_limit w) (w_conns w) (with_oracle (w_store w) vs), [])
   end.
